@@ -285,6 +285,9 @@ inline Unframed unframe(const Bytes& blob)
     }
     if (n < 0)
         throw Malformed("negative length prefix");
+    // deflate cannot expand by more than ~1032:1, so a larger prefix can never equal the inflated length
+    if (static_cast<uint64_t>(n) > 1040ull * blob.size() + 1024)
+        throw Malformed("length prefix exceeds what the stream can inflate to");
     u.payload.resize(static_cast<size_t>(n));
     uLongf dlen = static_cast<uLongf>(n);
     uLong slen = static_cast<uLong>(blob.size() - 4);
